@@ -76,6 +76,7 @@ def main():
     finally:
         sh("git -C /repo checkout -- .")
         sh("git -C %s checkout -- evidence" % VERIF)
+        sh("./vp setup", cwd=VERIF)        # leave the harness and the CLI built from the unchanged tree
     meta_out = {"property": prop, "seed_id": sid, "summary": meta.get("summary"), "needs_to_manifest": meta.get("needs_to_manifest"),
                 "files_changed": meta.get("files_changed"), "agent_ran": meta.get("ran"), "confirmed_by_me": {"ok": confirmed, "ran": ran},
                 "my_checks": results, "caught_by": [c for c, r in results.items() if r["exit"] == 1 and r["violation_lines"]]}
